@@ -130,3 +130,134 @@ void cli_set_edns0(int on)
 {
 	dnsc_use_edns0 = on;
 }
+
+/* ---- entry points for client histories (h_clihist.c) ---- */
+void cli_setup_tunnel(int selecttimeout_v, unsigned short chunkid_v, unsigned short seed_v, long now)
+{
+	selecttimeout = selecttimeout_v;
+	chunkid = chunkid_v;
+	chunkid_prev = 0;
+	chunkid_prev2 = 0;
+	rand_seed = seed_v;
+	lastdownstreamtime = now;
+	send_query_sendcnt = 0;
+	send_query_recvcnt = 0;
+	send_ping_soon = 1;
+	running = 1;
+	outchunkresent = 0;
+	/* client_init() leaves these from the previous history of this process */
+	outpkt.sentlen = 0;
+	outpkt.offset = 0;
+	memset(&raw_serv, 0, sizeof(raw_serv));
+	((struct sockaddr_in *)&raw_serv)->sin_family = AF_INET;
+	((struct sockaddr_in *)&raw_serv)->sin_port = htons(53);
+	((struct sockaddr_in *)&raw_serv)->sin_addr.s_addr = inet_addr("192.0.2.99");
+	raw_serv_len = sizeof(struct sockaddr_in);
+}
+
+int cli_tunnel_tun(void) { return tunnel_tun(21, 20); }
+int cli_tunnel_dns(void) { return tunnel_dns(21, 20); }
+
+void cli_watchdog(void)
+{
+	if (lastdownstreamtime + 60 < time(NULL))
+		running = 0;
+}
+
+int cli_running(void) { return running; }
+int cli_reads_tun(void) { return !is_sending() || outchunkresent >= 2; }
+
+/* the i == 0 (timeout) branch of client_tunnel()'s select loop */
+void cli_timeout(void)
+{
+	if (is_sending()) {
+		if (outchunkresent < 3) {
+			outchunkresent++;
+			send_chunk(20);
+		} else {
+			outpkt.offset = 0;
+			outpkt.len = 0;
+			outpkt.sentlen = 0;
+			outchunkresent = 0;
+			send_ping(20);
+		}
+	} else {
+		send_ping(20);
+	}
+	send_ping_soon = 0;
+}
+
+struct cli_view {
+	int out_len, out_sentlen, out_offset, out_seqno, out_fragment;
+	int in_len, in_seqno, in_fragment;
+	int resent, chunkid, prev, prev2;
+	long ping_soon, lastdown, sendcnt, recvcnt;
+	int lazy, selecttimeout, rand_seed, running, dns;
+	const unsigned char *out_data, *in_data;
+};
+
+void cli_view(struct cli_view *v)
+{
+	v->out_len = outpkt.len; v->out_sentlen = outpkt.sentlen; v->out_offset = outpkt.offset;
+	v->out_seqno = outpkt.seqno; v->out_fragment = outpkt.fragment;
+	v->in_len = inpkt.len; v->in_seqno = inpkt.seqno; v->in_fragment = inpkt.fragment;
+	v->resent = outchunkresent; v->chunkid = chunkid; v->prev = chunkid_prev; v->prev2 = chunkid_prev2;
+	v->ping_soon = send_ping_soon; v->lastdown = (long)lastdownstreamtime;
+	v->sendcnt = send_query_sendcnt; v->recvcnt = send_query_recvcnt;
+	v->lazy = lazymode; v->selecttimeout = selecttimeout; v->rand_seed = rand_seed; v->running = running;
+	v->dns = (conn == CONN_DNS_NULL);
+	v->out_data = (const unsigned char *)outpkt.data; v->in_data = (const unsigned char *)inpkt.data;
+}
+
+/* ---- entry points for the handshake harness (h_handshake.c) ---- */
+void cli_prepare_handshake(const char *topdom, const char *pass, int qtype, char downenc_c, int lazy, int maxlen)
+{
+	struct sockaddr_in *a = (struct sockaddr_in *)&nameserv;
+	client_init();
+	strncpy(cli_topdomain_buf, topdom, sizeof(cli_topdomain_buf) - 1);
+	topdomain = cli_topdomain_buf;
+	{
+		/* iodine.c keeps the password in a zero-filled 33-byte buffer */
+		static char pwbuf[33];
+		memset(pwbuf, 0, sizeof(pwbuf));
+		strncpy(pwbuf, pass, 32);
+		client_set_password(pwbuf);
+	}
+	do_qtype = qtype ? qtype : T_UNSET;
+	downenc = downenc_c;
+	dataenc = &base32_ops;
+	lazymode = lazy;
+	hostname_maxlen = maxlen;
+	selecttimeout = 4;
+	conn = CONN_DNS_NULL;
+	userid = 0;
+	userid_char = '0';
+	userid_char2 = '0';
+	memset(&nameserv, 0, sizeof(nameserv));
+	a->sin_family = AF_INET;
+	a->sin_port = htons(53);
+	a->sin_addr.s_addr = inet_addr("192.0.2.53");
+	nameserv_len = sizeof(struct sockaddr_in);
+	send_query_sendcnt = -1;
+	send_query_recvcnt = 0;
+	outpkt.sentlen = 0;
+	outpkt.offset = 0;
+}
+
+void cli_report(char *buf, size_t n)
+{
+	snprintf(buf, n, "qtype=%d up=%s down=%c lazy=%d conn=%d st=%d edns=%d uid=%d", do_qtype, dataenc->name,
+		 downenc == ' ' ? '_' : downenc, lazymode, conn == CONN_DNS_NULL, selecttimeout, dnsc_use_edns0, userid);
+}
+
+void cli_start_tunnel(void)
+{
+	lastdownstreamtime = time(NULL);
+	send_query_sendcnt = 0;
+	running = 1;
+}
+
+int cli_userid(void)
+{
+	return userid;
+}
